@@ -1,7 +1,8 @@
 """Per-property checks: scopes, jobs, evidence.  See DESIGN.md section 5."""
 import json, os, sys, time
 import sfv
-from sfv import Run, p1_job, pair_job, log
+from sfv import Run, p1_job, pair_job, p2_job, p3_stream_job, exp_job, record, log
+import random
 
 CHECKS = {}
 
@@ -74,7 +75,17 @@ def c13(tier):
     run.submit(p1_job, "roll-int", "MC_Def", {"prop": "C13", "cfgs": cf, "alphabet": [1, 2, 4, 7], "unit": 1, "maxlen": L, "extras": True})
     run.submit(p1_job, "roll-dec", "MC_Def", {"prop": "C13", "cfgs": cf, "alphabet": [5, 12, 20, 31], "unit": 10, "maxlen": L - 1, "extras": True,
                                       "eps": [1, 1000000]})
-    return run.finish(RULE_DEF)
+    # long positive streams (new peaks after deeper troughs, repeated peaks, monotone runs): exact running sums in the ghost state
+    rnd = random.Random(77 + run.seed)
+    n = 10000 if tier == "quick" else 1000000
+    streams = []
+    for cfg in cf:
+        xs = walk(rnd, n, 100, 10000, 150)
+        xs[n // 3:n // 3 + 200] = sorted(xs[n // 3:n // 3 + 200])                 # monotone run
+        xs[n // 2:n // 2 + 50] = [max(xs)] * 50                                  # repeated peak
+        streams.append({"cfg": cfg, "unit": 100, "mode": "rolling", "eps": [1, 1000000000], "float": "f64", "xs": xs, "k": 10 if tier == "quick" else 250})
+    run.submit(p3_stream_job, "roll-long", "C13", streams)
+    return run.finish(RULE_DEF + "; plus recorded long streams validated against exact running sums (P3)")
 
 E = {"k": "Echo"}
 def ema(n): return {"k": "Ema", "n": n}
@@ -340,6 +351,228 @@ def c15(tier):
                    profile=prof, nontrivial_keys=nk, view_label=label)
     return run.finish("every input sequence over the alphabet up to maxlen, for every view of the catalogue, windows 1..64, two-level chains, "
                       "debug-assertion and release builds; non-trivial = observations of accepted configurations (each is checked for panic)")
+
+def tapped(inner, tid, pid):
+    """Tap<inner<Probe>>: the inner view with observation points above and below it"""
+    return {"k": "Tap", "id": tid, "c": [with_child(inner, {"k": "Probe", "id": pid})]}
+
+def c01_pairs(outers, inners):
+    """[composite, decomposition, composite, decomposition, ...]"""
+    out = []
+    for o in outers:
+        for i in inners:
+            if o["k"] in ("PolarizedFractalEfficiency", "EhlersFisherTransform"):
+                comp = dict(o); comp["c"] = [tapped(i, 1, 0), tapped(o["c"][1], 5, 4)]
+            else:
+                comp = with_child(o, tapped(i, 1, 0))
+            out += [comp, {"k": "Decomp", "outer": o, "inner": i}]
+    return out
+
+def c01_label(cfg):
+    def inner_of(t):
+        return t["c"][0]["k"] if t.get("k") == "Tap" else t.get("k")
+    if cfg.get("k") == "Decomp":
+        return cfg["outer"]["k"] + "/" + cfg["inner"]["k"]
+    return cfg["k"] + "/" + ",".join(inner_of(c) for c in cfg.get("c", [])[:2])
+
+@check("C01")
+def c01(tier):
+    run = Run("C01", tier, "model_checking")
+    def unary(n):
+        return [c for c in catalogue(n, positive=True) if c["k"] not in ("Echo", "Constant", "Add", "Subtract", "Multiply", "Divide")]
+    def inners(n):
+        # Echo and Constant are leaves themselves (the Probe stands in for Echo)
+        return [c for c in catalogue(n, positive=True) if c["k"] not in ("Add", "Subtract", "Multiply", "Divide", "Echo", "Constant")]
+    L = 4 if tier == "quick" else 6
+    combos = [(3, 2)] if tier == "quick" else [(2, 3), (3, 2), (1, 3), (3, 1)]
+    for nb, na in combos:
+        outs = unary(nb)
+        for i in range(0, len(outs), 4):
+            grp = outs[i:i + 4]
+            run.submit(p1_job, "chain-%d-%d-%d" % (nb, na, i // 4), "MC_C01",
+                       {"cfgs": c01_pairs(grp, inners(na)), "alphabet": [1, 2, 4], "unit": 1, "maxlen": L, "taps": True},
+                       cfgfile="MC_C01.cfg", cfg_fraction=2, nontrivial_keys=("same-answer",), view_label=c01_label)
+        # a second alphabet with zero and negatives for the views whose domain admits it
+        nopos = [o for o in unary(nb) if o["k"] not in ("LnReturn", "Drawdown")]
+        inn = [c for c in inners(na) if c["k"] not in ("LnReturn", "Drawdown", "Divide")][:12 if tier == "quick" else 99]
+        for i in range(0, len(nopos), 8):
+            run.submit(p1_job, "chain-neg-%d-%d-%d" % (nb, na, i // 8), "MC_C01",
+                       {"cfgs": c01_pairs(nopos[i:i + 8], inn), "alphabet": [-2, 0, 3], "unit": 2, "maxlen": L, "taps": True},
+                       cfgfile="MC_C01.cfg", cfg_fraction=2, nontrivial_keys=("same-answer",), view_label=c01_label)
+    # binary combinators over every pair of children
+    kids = [c for c in catalogue(2, positive=True) if c["k"] not in ("Add", "Subtract", "Multiply", "Divide", "Constant", "Echo")]
+    if tier == "quick":
+        kids = kids[::3]
+    for b in ("Add", "Subtract", "Multiply", "Divide"):
+        cf = []
+        for x in kids:
+            for y in kids:
+                cf += [{"k": b, "c": [tapped(x, 1, 0), tapped(y, 3, 2)]}, {"k": "Decomp", "outer": E, "inner": E}]
+        run.submit(p1_job, "bin-%s" % b, "MC_C01", {"cfgs": cf, "alphabet": [1, 2, 4], "unit": 1, "maxlen": L, "taps": True},
+                   cfgfile="MC_C01.cfg", cfg_fraction=2, nontrivial_keys=("forward-once",), view_label=c01_label)
+    return run.finish("every input sequence over the alphabet up to maxlen for every (outer, inner) pair of the catalogue and every binary "
+                      "combinator over pairs of children; non-trivial = states in which composite and decomposition answers are compared "
+                      "(binary nodes: states in which the update-forwarding pattern is checked)")
+
+def chains2(outers, inner):
+    return [with_child(o, inner) for o in outers if o["k"] not in ("Echo", "Constant")]
+
+@check("C17")
+def c17(tier):
+    run = Run("C17", tier, "model_checking")
+    num = 400 if tier == "quick" else 4000
+    depth = 22 if tier == "quick" else 40
+    for n in (1, 2, 3):
+        cat = catalogue(n, positive=True)
+        run.submit(p2_job, "sf-pos-n%d" % n, {"cfgs": cat, "inputs": [1, 2, 3], "unit": 1, "slots": 3, "depth": depth}, "C17", num=num)
+        cat2 = [c for c in catalogue(n) if c["k"] != "Divide"]
+        run.submit(p2_job, "sf-neg-n%d" % n, {"cfgs": cat2, "inputs": [-3, 0, 1], "unit": 2, "slots": 3, "depth": depth}, "C17", num=num)
+    ch = chains2(catalogue(2, positive=True), sma(2)) + chains2(catalogue(3, positive=True), {"k": "Roc", "n": 1}) + chains2(catalogue(2, positive=True), {"k": "LaguerreRSI", "n": 2})
+    run.submit(p2_job, "sf-chains", {"cfgs": ch, "inputs": [1, 2, 4], "unit": 1, "slots": 3, "depth": depth}, "C17", num=2 * num)
+    # twins and clones of one configuration, every polling pattern and clone position (SFTwin.tla), all views
+    for n in (1, 2, 3):
+        cat = [c for c in catalogue(n, positive=True) if c["k"] not in ("Add",)]
+        st = 4 if tier == "quick" else 5
+        half = len(cat) // 2
+        for h, part in enumerate((cat[:half], cat[half:])):
+            run.submit(p2_job, "twin-n%d-%d" % (n, h), {"cfgs": part, "inputs": [1, 2], "unit": 1, "slots": 3, "depth": 99, "steps": st}, "C17",
+                       exhaustive=True, gen="SFTwin")
+    chn = chains2(catalogue(2, positive=True), sma(2))
+    run.submit(p2_job, "twin-chains", {"cfgs": chn, "inputs": [1, 2], "unit": 1, "slots": 3, "depth": 99, "steps": 4}, "C17", exhaustive=True, gen="SFTwin")
+    # exhaustive small depth on two slots: every interleaving of new/update/last/clone/drop
+    small = [sma(2), {"k": "Rsi", "n": 2}, {"k": "LaguerreFilter", "g": [1, 2]}, {"k": "CyberCycle", "n": 1}]
+    run.submit(p2_job, "sf-exhaustive", {"cfgs": small, "inputs": [1, 2], "unit": 1, "slots": 2, "depth": 5 if tier == "quick" else 6}, "C17", exhaustive=True)
+    return run.finish("behaviours of SF.tla (new/update/last/clone/drop on up to 3 slots) generated by TLC (simulation, plus all behaviours "
+                      "to depth 5 on 2 slots), replayed on the real crate; non-trivial = behaviours with at least two last() answers to compare")
+
+def walk(rnd, n, lo, hi, maxstep):
+    """bounded random walk of integers (values in units of 1/unit), with occasional ties and jumps"""
+    x = rnd.randint(lo, hi); out = []
+    for _ in range(n):
+        r = rnd.random()
+        if r < 0.1:
+            pass                                   # tie
+        elif r < 0.13:
+            x = rnd.randint(lo, hi)                # jump
+        else:
+            x += rnd.randint(-maxstep, maxstep)
+        x = min(hi, max(lo, x))
+        out.append(x)
+    return out
+
+def flat_after_volatile(rnd, n, lo, hi):
+    pre = [rnd.randint(lo, hi) for _ in range(rnd.randint(2, 3 * n + 2))]
+    v = rnd.choice(pre + [rnd.randint(lo, hi)])
+    return pre + [v] * rnd.randint(n + 1, 2 * n + 2)
+
+@check("C16")
+def c16(tier):
+    run = Run("C16", tier, "exploration")
+    rnd = random.Random(1000 + run.seed)
+    n64 = 20000 if tier == "quick" else 1000000
+    n32 = 2000 if tier == "quick" else 10000
+    long_streams = []
+    for k, mode in (("Sma", "window"), ("Cumulative", "window"), ("Alma", "window"), ("Rsi", "window"), ("MyRSI", "window"),
+                    ("WelfordOnline", "window"), ("WelfordRolling", "rolling"), ("Min", "window"), ("HLNormalizer", "window"), ("Vsct", "window")):
+        for n in ((5, 16) if tier == "quick" else (3, 16, 64)):
+            cfg = {"k": k} if k == "WelfordRolling" else {"k": k, "n": n}
+            # values k/1000 with 10 <= k <= 10000 (three decades), steps of at least 1/1000
+            long_streams.append({"cfg": cfg, "unit": 1000, "mode": mode, "eps": [1, 1000000], "float": "f64",
+                                 "xs": walk(rnd, n64, 10, 10000, 400), "k": 25 if tier == "quick" else 500})
+            long_streams.append({"cfg": cfg, "unit": 1000, "mode": mode, "eps": [1, 100], "float": "f32",
+                                 "xs": walk(rnd, n32, 10, 10000, 400), "k": 5})
+    half = len(long_streams) // 2
+    run.submit(p3_stream_job, "long-a", "C16", long_streams[:half])
+    run.submit(p3_stream_job, "long-b", "C16", long_streams[half:])
+    # a volatile stretch followed by at least a full window of identical values: the exact flat-window answer, not residue
+    flats = []
+    kinds = ["Rsi", "MyRSI", "Vst", "Vsct", "WelfordOnline", "HLNormalizer", "CorrelationTrendIndicator", "NoiseEliminationTechnology", "Roc",
+             "CyberCycle", "Sma", "Ema", "Alma", "Cumulative", "Min", "Max"]
+    reps = 12 if tier == "quick" else 120
+    for k in kinds:
+        for n in (2, 3, 5, 8):
+            for _ in range(reps):
+                unit = rnd.choice([10, 100, 1000])
+                flats.append({"cfg": {"k": k, "n": n}, "unit": unit, "mode": "full", "eps": [1, 10000], "float": "f64",
+                              "xs": flat_after_volatile(rnd, n, 1, 9999 if unit == 1000 else 999), "k": 1})
+    for i in range(0, len(flats), max(1, len(flats) // 3 + 1)):
+        run.submit(p3_stream_job, "flat-%d" % (i // max(1, len(flats) // 3 + 1)), "C16", flats[i:i + len(flats) // 3 + 1])
+    run.assumptions.append("the specification has no model of IEEE rounding: rounding effects are only observed on the recorded streams (seeded), not explored")
+    return run.finish("recorded f64/f32 streams (random walks over three decades in units of 1/1000; volatile prefixes followed by >= N+1 identical "
+                      "values) validated event by event against the exact definition on the ghost window; non-trivial = events where the definition fixes the answer")
+
+def c09_views(n):
+    v = [ema(n), {"k": "SuperSmoother", "n": n}, {"k": "CyberCycle", "n": n}, {"k": "LaguerreRSI", "n": max(n, 2)},
+         {"k": "EhlersFisherTransform", "n": n, "c": [E, ema(3)]}, {"k": "RoofingFilter", "n": max(n, 2), "m": 3},
+         {"k": "Ema", "n": 3, "c": [{"k": "SuperSmoother", "n": n}]}, {"k": "SuperSmoother", "n": 3, "c": [{"k": "RoofingFilter", "n": max(n, 2), "m": 2}]}]
+    if n >= 3:
+        v += [{"k": "TrendFlex", "n": n}, {"k": "ReFlex", "n": n}]
+    return v
+
+@check("C09")
+def c09(tier):
+    run = Run("C09", tier, "model_checking")
+    # (a) pole criterion on the specification's coefficient formulas, every N
+    wd = run.wd
+    sp = os.path.join(wd, "poles.scope.json")
+    nmax = 512 if tier == "quick" else 4096
+    json.dump({"nmin": 1, "nmax": nmax, "flexmin": 1, "roofmin": 2}, open(sp, "w"))
+    res = sfv.run_tlc("MC_C09", "MC.cfg", {"SCOPE": sp}, wd, workers=8, timeout=1500)
+    if res["distinct"] != nmax:
+        raise sfv.ToolError("MC_C09 explored %d states, expected %d" % (res["distinct"], nmax))
+    run.states += res["distinct"]; run.transitions += res["states"]; run.evaluations += res["distinct"]; run.nontrivial += res["distinct"]
+    run.jobs.append({"name": "poles", "pipeline": "MC (specification only)", "module": "MC_C09", "N": [1, nmax], "states": res["distinct"], "tlc_s": round(res["wall"], 2)})
+    for v in res["viol"]:
+        run.add_violation(v[1].split(".")[1], "pole-criterion", None, {"N": v[2], "view": v[1]}, {"kind": "formula", "view": v[1], "N": v[2]})
+    # (b) recorded long streams on the real code
+    rnd = random.Random(99 + run.seed)
+    n = 20000 if tier == "quick" else 400000
+    k = 100 if tier == "quick" else 1000
+    ns = [1, 2, 3, 4, 5, 7, 9, 12, 16, 64] if tier == "quick" else list(range(1, 13)) + [16, 32, 64]
+    lag = [{"k": "LaguerreFilter", "g": g} for g in ([0, 1], [1, 2], [9, 10])]
+    progs = []; meta = []
+    def add(cfg, kind, xa, xb=None):
+        pr = [["new", 0, cfg], ["uss", 0, xa, k]]
+        if xb is not None:
+            pr += [["new", 1, cfg], ["uss", 1, xb, k]]
+        progs.append({"id": len(progs) + 1, "unit": 10, "slots": 2, "prog": pr})
+        meta.append({"cfg": cfg, "kind": kind, "unit": 10, "maxabs": 1000, "len": len(xa)})
+    H = 4000
+    for cfg in [c for nn in ns for c in c09_views(nn)] + lag:
+        add(cfg, "bounded", [1000 if i % 2 else -1000 for i in range(n)])                       # Nyquist
+        add(cfg, "bounded", [1000] * (n // 2) + [-1000] * (n // 2))                                # constant, then a step
+        add(cfg, "bounded", [rnd.randint(-1000, 1000) for _ in range(n)])                          # noise
+        tail = [rnd.randint(-1000, 1000) for _ in range(H)]
+        add(cfg, "pair", [rnd.randint(-1000, 1000) for _ in range(2000)] + tail, [1000, -1000] * 1000 + tail)
+        add(cfg, "pair", [0] * 2000 + tail, [rnd.choice([-1000, 1000]) for _ in range(2000)] + tail)
+    out = record(run, "streams", progs)
+    lines = []
+    for m, r in zip(meta, out):
+        ln = dict(m); ln["oa"] = r["res"][1]
+        if m["kind"] == "pair":
+            ln["ob"] = r["res"][3]
+        lines.append(ln)
+    exp_job(run, "streams", "C09", lines, "lines", describe=lambda e: {"cfg": e["cfg"], "kind": e["kind"], "len": e["len"]})
+    run.exhaustive = False
+    return run.finish("(a) one TLC state per window length N: Jury conditions on the specification's coefficient formulas; (b) recorded streams "
+                      "(Nyquist, step, noise; pairs with a common 4000-step tail) of the real views for N in 1..64; non-trivial = every state / line")
+
+def c18_cfgs(n):
+    return [c for c in catalogue(n, positive=True)] + chains2(catalogue(n), sma(n))[:10]
+
+@check("C18")
+def c18(tier):
+    run = Run("C18", tier, "exploration")
+    exps = []
+    for n in ((1, 3, 16) if tier == "quick" else (1, 3, 16, 64)):
+        for cfg in c18_cfgs(n):
+            L0 = 8 * (2 * n + 4)
+            exps.append({"cfg": cfg, "unit": 10, "marks": [L0, 4 * L0, 16 * L0 if tier == "quick" else 256 * L0], "period": [12, 15, 11, 18, 18, 9, 14]})
+    out = record(run, "mem", exps, mode="mem")
+    out = [o for o in out if isinstance(o.get("res"), dict)]
+    exp_job(run, "mem", "C18", out, "views", describe=lambda e: {"cfg": e["cfg"], "marks": e["res"]["marks"]})
+    return run.finish("live heap bytes attributable to each view of the catalogue (and two-level chains) at L0, 4 L0 and 16 L0 (256 L0 thorough) "
+                      "updates, L0 = 8(2N+4), N in {1,3,16,64}; non-trivial = every view measured")
 
 # ------------------------------------------------------------------------------------------------
 def setup():
